@@ -323,20 +323,26 @@ def r5(idx, rep):
     bad = None
     for nchild in (1, 2):
         def child(interp, call, recv, args, kwargs):
-            v = interp.choose(f"{recv.name}", [True, False, None, "raise"], memo=False)
+            v = interp.choose(f"{recv.name}", [True, False, None, "raise", "records"], memo=False)
             if v == "raise":
                 interp.record_call("child-raised")
                 raise Raised("ValueError")
+            if v == "records":
+                # a component below handled its own error (a validation error under a non-raising policy): it hands the error to the
+                # expression and still votes True
+                interp.store["self.errors"].append("E")
+                return True
             return v
 
         it = Interp(idx, types={"self": "Expression"}, unknown_calls="residual",
                     domains={"self.matcher.csvpath.match_validation_errors": [None, True, False], "self.match": [None]},
                     handlers={".matches": child})
         store = {"self.children": [Obj(f"c{i}") for i in range(nchild)], "self.errors": []}
-        for p in it.run_all(fe, args={"skip": []}, store=store):
+        # (asked by the matcher — empty skip list — and by an onmatch look-ahead of another expression, which passes itself as the one to skip)
+        for p in [p_ for sk in ([], [Obj("asker")]) for p_ in it.run_all(fe, args={"skip": sk}, store=store)]:
             n += 1
             votes = [v for t, v in p.choices if t.startswith("c")]
-            raised = "raise" in votes
+            raised = "raise" in votes or "records" in votes
             mve = p.atom("self.matcher.csvpath.match_validation_errors")
             if p.result[0] != "return":
                 bad = bad or f"children {votes}: an exception escapes Expression.matches ({p.result})"
@@ -344,13 +350,14 @@ def r5(idx, rep):
             val = p.result[1]
             errs = p.final_store.get("self.errors")
             if raised:
-                if not errs or len(errs) != 1:
-                    bad = bad or f"children {votes}: the raised exception is not recorded exactly once (errors={errs})"
+                nerr = sum(1 for v in votes if v in ("raise", "records"))
+                if not errs or len(errs) != nerr:
+                    bad = bad or f"children {votes}: the errors are not recorded exactly once each (errors={errs})"
                 if not mve and val is not False:
                     bad = bad or f"children {votes}, validation-mode match={mve!r}: the expression returns {val!r}; an erroring component must not match"
             else:
                 want = all(bool(v) for v in votes)
-                if val is not want:
+                if val is not want and "records" not in votes:
                     bad = bad or f"children {votes}: returns {val!r}, expected {want!r}"
     rep.check(bad is None, "R5", f"{fe.file}::Expression.matches table", bad or f"{n} paths", K.where(fe, fe.node))
     rep.stats["table_rows"] = rep.stats.get("table_rows", 0) + n
